@@ -295,6 +295,41 @@ func (l *lazyRec) bytes() []byte {
 	return append([]byte(nil), l.lines...)
 }
 
+// panicRec: a member that PANICS on chosen records (every 7th) instead of recording them
+type panicRec struct{ lazyRec }
+
+func panicsOn(m mid) bool { return m.K%7 == 2 }
+
+func (l *panicRec) Log(a ...interface{}) {
+	if id, ok := parseHeader(fmt.Sprint(a...)); ok && panicsOn(id) {
+		panic("harness member: I refuse this record")
+	}
+	l.lazyRec.Log(a...)
+}
+func (l *panicRec) LogError(a ...interface{}) { l.Log(a...) }
+
+// bufWriter: a writer that BUFFERS: what it is given reaches the recording part only when it is closed (or synced)
+type bufWriter struct {
+	recWriter
+	pmu     sync.Mutex
+	pending bytes.Buffer
+}
+
+func (w *bufWriter) Write(p []byte) (int, error) {
+	w.pmu.Lock()
+	w.pending.Write(p)
+	w.pmu.Unlock()
+	return len(p), nil
+}
+func (w *bufWriter) Close() error {
+	w.pmu.Lock()
+	defer w.pmu.Unlock()
+	_, _ = w.recWriter.Write(w.pending.Bytes())
+	w.pending.Reset()
+	return nil
+}
+func (w *bufWriter) SetSource(string) error { return nil }
+
 // statelessLogger: no fields at all; writes to a package-level sink
 type statelessLogger struct{}
 
@@ -568,6 +603,7 @@ type built struct {
 	async     bool
 	noSink    bool
 	overlaps  func() int
+	skip      func(mid) bool        // records on which a member panics: the loop over the members is aborted there, so nothing is demanded for them
 	postCheck func() []string       // further demands after Close (e.g. every writer was closed)
 	srcFor    func(p, k int) string // the log source a producer sets (default: srcA / srcB)
 	Ls        []logs.Loggers        // several instances of the same constructor alive at once: producer p uses Ls[p % len(Ls)]
@@ -744,6 +780,61 @@ func buildSimple(kind string, sc Scenario, idx int) (logs.Loggers, []*sink, erro
 			return nil, nil, err
 		}
 		return l, []*sink{byLevel(jsonSinkFromRec(fmt.Sprintf("slog#%d@%s", idx, sc.Level), w), sl.Enabled(context.Background(), slog.LevelInfo), sl.Enabled(context.Background(), slog.LevelError))}, nil
+	case "userpanic":
+		l := &panicRec{}
+		return l, []*sink{{name: fmt.Sprintf("userpanic#%d", idx), format: "plain", read: l.bytes, required: all, allowed: all}}, nil
+	case "nestedpanic":
+		leaf, err := logs.NewPlainStringLogger()
+		if err != nil {
+			return nil, nil, err
+		}
+		pl := &panicRec{}
+		inner, err := logs.NewCombinedLoggers(leaf, pl)
+		if err != nil {
+			return nil, nil, err
+		}
+		return inner, []*sink{
+			{name: fmt.Sprintf("nestedpanic-leaf#%d", idx), format: "plain", read: func() []byte { return []byte(leaf.GetLogContent()) }, required: all, allowed: all},
+			{name: fmt.Sprintf("nestedpanic-member#%d", idx), format: "plain", read: pl.bytes, required: all, allowed: all},
+		}, nil
+	case "zapbuffered":
+		// zap over a BUFFERING core: nothing reaches the writer before Sync, which Loggers.Close must trigger
+		w := &recWriter{}
+		ws := &zapcore.BufferedWriteSyncer{WS: zapcore.AddSync(w), Size: 4 << 20, FlushInterval: time.Hour}
+		core := zapcore.NewCore(zapcore.NewJSONEncoder(zap.NewProductionEncoderConfig()), ws, zap.DebugLevel)
+		l, err := logs.NewZapLogger(zap.New(core), "lsrc")
+		if err != nil {
+			return nil, nil, err
+		}
+		return l, []*sink{jsonSinkFromRec(fmt.Sprintf("zapbuffered#%d", idx), w)}, nil
+	case "jsonbuffered":
+		w := &bufWriter{}
+		l, err := logs.NewJSONLogger(w, "lsrc", "src0")
+		if err != nil {
+			return nil, nil, err
+		}
+		return l, []*sink{jsonSinkFromRec(fmt.Sprintf("jsonbuffered#%d", idx), &w.recWriter)}, nil
+	case "jsonmultibuffered":
+		w1, w2 := &bufWriter{}, &bufWriter{}
+		mw, err := logs.NewMultipleWritersWithSource(w1, w2)
+		if err != nil {
+			return nil, nil, err
+		}
+		l, err := logs.NewJSONLogger(mw, "lsrc", "src0")
+		if err != nil {
+			return nil, nil, err
+		}
+		return l, []*sink{jsonSinkFromRec("jsonmultibuffered-w1", &w1.recWriter), jsonSinkFromRec("jsonmultibuffered-w2", &w2.recWriter)}, nil
+	case "asyncbuffered":
+		ow, ew := &bufWriter{}, &bufWriter{}
+		l, err := logs.NewAsynchronousLoggers(ow, ew, 4096, 0, "lsrc", "src0", &dropRec{})
+		if err != nil {
+			return nil, nil, err
+		}
+		return l, []*sink{
+			{name: fmt.Sprintf("asyncbuffered-out#%d", idx), format: "async", read: ow.recWriter.bytes, required: onlyOut, allowed: onlyOut},
+			{name: fmt.Sprintf("asyncbuffered-err#%d", idx), format: "async", read: ew.recWriter.bytes, required: onlyErr, allowed: onlyErr},
+		}, nil
 	case "userlazy":
 		l := &lazyRec{}
 		return l, []*sink{{name: fmt.Sprintf("userlazy#%d", idx), format: "plain", read: l.bytes, required: all, allowed: all}}, nil
@@ -1090,6 +1181,11 @@ func build0(sc Scenario) (*built, error) {
 			return nil, err
 		}
 		b.L, b.multi = m, m
+		for _, mk := range sc.Members {
+			if strings.Contains(mk, "panic") {
+				b.skip = panicsOn
+			}
+		}
 		for _, f := range deferredFill {
 			f()
 		}
@@ -1112,6 +1208,10 @@ func build0(sc Scenario) (*built, error) {
 		}
 		b.L, b.sinks = l, ss
 		b.noSink = len(ss) == 0
+		if strings.HasSuffix(sc.Kind, "buffered") {
+			// the history ends in Close(); delivery is judged after it
+			b.closeFn = func() { _ = l.Close() }
+		}
 	}
 	return b, nil
 }
@@ -1126,6 +1226,24 @@ type runObs struct {
 	hang                           bool
 	collisions                     int64
 	notClosed                      []string
+}
+
+// guarded: the caller of a logger recovers from a panic raised by a member and goes on
+func guarded(recoverPanics bool, f func()) {
+	if recoverPanics {
+		defer func() { _ = recover() }()
+	}
+	f()
+}
+
+// watchdog: no producer may block; 120 s by default, 10 s where a blocked composite is the failure looked for
+func watchdog(sc Scenario) time.Duration {
+	for _, m := range sc.Members {
+		if strings.Contains(m, "panic") {
+			return 10 * time.Second
+		}
+	}
+	return 120 * time.Second
 }
 
 func truncateStd(sc Scenario) {
@@ -1175,9 +1293,9 @@ func runOnce(sc Scenario, res *WResult, emitCase bool) (ob runObs) {
 			for _, o := range progs[p] {
 				switch o.Op {
 				case opLog:
-					L.Log(msgArgs(sc.Seed, mid{p, 'o', o.K})...)
+					guarded(b.skip != nil, func() { L.Log(msgArgs(sc.Seed, mid{p, 'o', o.K})...) })
 				case opErr:
-					L.LogError(msgArgs(sc.Seed, mid{p, 'e', o.K})...)
+					guarded(b.skip != nil, func() { L.LogError(msgArgs(sc.Seed, mid{p, 'e', o.K})...) })
 				case opSetSource:
 					src := []string{"srcA", "srcB"}[(p+o.K)%2]
 					if b.srcFor != nil {
@@ -1195,7 +1313,7 @@ func runOnce(sc Scenario, res *WResult, emitCase bool) (ob runObs) {
 	close(start)
 	select {
 	case <-done:
-	case <-time.After(120 * time.Second):
+	case <-time.After(watchdog(sc)):
 		ob.hang = true
 		return
 	}
@@ -1276,7 +1394,7 @@ func runOnce(sc Scenario, res *WResult, emitCase bool) (ob runObs) {
 			missing := 0
 			var first mid
 			for m := range sent {
-				if s.required(m) && seen[m] == 0 {
+				if s.required(m) && !(b.skip != nil && b.skip(m)) && seen[m] == 0 {
 					if missing == 0 || m.K < first.K {
 						first = m
 					}
@@ -1286,7 +1404,7 @@ func runOnce(sc Scenario, res *WResult, emitCase bool) (ob runObs) {
 			if missing > 0 {
 				req := 0
 				for m := range sent {
-					if s.required(m) {
+					if s.required(m) && !(b.skip != nil && b.skip(m)) {
 						req++
 					}
 				}
@@ -2199,6 +2317,13 @@ func workerMain() {
 	res := &WResult{Counts: map[string]int{}}
 	for _, sc := range scs {
 		runScenario(sc, res)
+		hung := false
+		for _, f := range res.Failures {
+			hung = hung || strings.HasPrefix(f.Signature, "hang:")
+		}
+		if hung {
+			break // blocked goroutines of that run are still alive: what follows in this process would not be a clean observation
+		}
 	}
 	out, _ := json.Marshal(res)
 	_ = os.WriteFile(*workerOut, out, 0o644)
@@ -2348,6 +2473,20 @@ func scenarios(r *h.Run) map[string][]Scenario {
 			}
 			add(Scenario{Kind: k, Producers: 2 + rng.Intn(4), Msgs: 1 + rng.Intn(8), Mix: "append", Members: ms, Case: true})
 		}
+	}
+	// a member that PANICS on some records (the producer recovers): later records must still reach every member and
+	// no producer may block
+	for _, k := range []string{"multi", "combined"} {
+		for _, ms := range [][]string{{"userpanic"}, {"plainstring", "userpanic"}, {"userpanic", "plainstring"}, {"string", "userpanic", "userlazy"},
+			{"plainstring", "nestedpanic", "json"}, {"nestedpanic"}} {
+			add(Scenario{Kind: k, Producers: 1, Msgs: 30, Mix: "both", Members: ms})
+			add(Scenario{Kind: k, Producers: 2 + rng.Intn(7), Msgs: 20 + rng.Intn(20), Mix: "all", Members: ms})
+		}
+	}
+	// buffering back ends: the history ends in Close(), delivery is judged after it
+	for _, k := range []string{"zapbuffered", "jsonbuffered", "jsonmultibuffered", "asyncbuffered"} {
+		add(Scenario{Kind: k, Producers: 1, Msgs: 60, Mix: "both"})
+		add(Scenario{Kind: k, Producers: 2 + rng.Intn(7), Msgs: 30 + rng.Intn(30), Mix: "all"})
 	}
 	// asynchronous loggers whose writers fail to Close, with messages still queued at Close
 	for _, side := range []string{"err", "out", "both", "none"} {
